@@ -20,7 +20,8 @@ def variants(rng, s):
     out = [s]
     if "//" in s:
         out.append(s.replace("//", "//x@", 1))
-    for a, b in (("/a", ""), ("/a", "/"), (":80", ""), ("http:", "https:"), ("?a=1", ""), ("#f", ""), ("h", "H"), ("a", "b"), ("/", "//")):
+    for a, b in (("/a", ""), ("/a", "/"), (":80", ""), ("http:", "https:"), ("?a=1", ""), ("#f", ""), ("h", "H"), ("a", "b"), ("/", "//"),
+                 ("%2F", "/"), ("%2f", "/"), ("%41", "A"), ("%7E", "~"), ("%20", "+"), ("%2B", "+"), ("%3D", "=")):
         if a in s:
             out.append(s.replace(a, b, 1))
     out.append(s + "/")
@@ -33,7 +34,8 @@ def run(ctx):
     rng = ctx.rng
     bases = ["http://a", "http://a/", "http://a:80", "http://a:80/", "http://A/", "http://a/?", "http://a/#", "//a", "//a/",
              "", "/", "a", "http:a", "http:/a", "http://a/b", "http://a/b/", "http://u@a/", "http://a/?x=1", "http://a/#f",
-             "http://a/%7e", "http://a/~", "https://a", "http://a:81", "http://b", "http://a/a", "http://a/b?x", "x://", "x:///"]
+             "http://a/%7e", "http://a/~", "http://a/x%2Fy/z", "http://a/x/y/z", "http://a/p?k=a%2Bb", "http://a/p?k=a+b", "http://a/p?k=a%20b",
+             "http://u%40x@a/", "http://a/#f%23", "http://a/%41", "http://a/A", "https://a", "http://a:81", "http://b", "http://a/a", "http://a/b?x", "x://", "x:///"]
     bases += gens.structured_urls(rng, 150 if ctx.quick else 1500)
     progs = []
     for s in bases:
